@@ -146,6 +146,7 @@ type OpenOpts struct {
 	Eager    bool   `json:"eager,omitempty"`
 	Create   bool   `json:"create,omitempty"`
 	Note     string `json:"note,omitempty"`
+	Typed    bool   `json:"typed,omitempty"` // drive the log through klevdb.OpenT with the identity codec (typed.go)
 }
 
 func (o OpenOpts) K() klevdb.Options {
@@ -177,7 +178,11 @@ func (o OpenOpts) EffVer() ref.Version {
 func kOpen(dir string, o OpenOpts) (l klevdb.Log, err error) {
 	err = guard(func() error {
 		var e error
-		l, e = klevdb.Open(dir, o.K())
+		if o.Typed {
+			l, e = openTyped(dir, o.K())
+		} else {
+			l, e = klevdb.Open(dir, o.K())
+		}
 		return e
 	})
 	return
